@@ -4,7 +4,7 @@ Algebraic-law monitor over triples (versors and non-normalised) with an
 independent Hamilton product as reference, plus the scalar-last twin monitor."""
 import numpy as np
 
-from .. import gens
+from .. import forms, gens
 from ..core import Case, call
 from ..oracles import as_real_array
 from ..ref import quat as rq
@@ -16,7 +16,7 @@ ROUTES = ["Quaternion.normalize", "Quaternion.product", "Quaternion.__mul__", "Q
           "orientation.q_prod", "Quaternion.conjugate", "Quaternion.inverse", "Quaternion.inv", "Quaternion.mult_L",
           "Quaternion.mult_R", "orientation.q_mult_L", "orientation.q_mult_R", "orientation.q_conj",
           "Quaternion(order=S)", "QuaternionArray(order=S)", "associativity", "norm-multiplicative"]
-REGIONS = {"versor": 100, "nonversor": 100, "near_unit": 60, "special": 60}
+REGIONS = {"versor": 100, "nonversor": 100, "near_unit": 60, "special": 60, "whole": 60}
 PROBES = [("ahrs.common.quaternion", "Quaternion.product"), ("ahrs.common.orientation", "q_prod"),
           ("ahrs.common.quaternion", "Quaternion.mult_L"), ("ahrs.common.quaternion", "Quaternion.mult_R"),
           ("ahrs.common.orientation", "q_mult_L"), ("ahrs.common.orientation", "q_mult_R"),
@@ -46,6 +46,11 @@ def generate(rng, tier, shard, nshards):
         elif reg == "special":
             tri = [gens.unit_quat(rng, str(rng.choice(["pure", "real", "axis_aligned", "generic"]))) * gens.logu(rng, 1e-2, 1e2)
                    for _ in range(3)]
+        elif reg == "whole":        # whole-number (Lipschitz) quaternions: also multiplied as int arrays, lists and tuples
+            tri = []
+            for _ in range(3):
+                x = rng.integers(-5, 6, 4).astype(float)
+                tri.append(x if np.any(x[1:]) else np.array([1.0, 2.0, 0.0, -1.0]))
         else:
             tri = [gens.unit(rng) * gens.logu(rng, 1e-2, 1e2) for _ in range(3)]
         yield Case("all", reg, a=tri[0], b=tri[1], c=tri[2], v=gens.vec3(rng), versor=(reg == "versor") or bool(i % 2 and reg == "special"))
@@ -89,6 +94,11 @@ def check(case, ctx):
             x = as_real_array(ctx, out.value, (4,), route=r, what="product")
             if x is not None:
                 ctx.le("product = Hamilton product", rel(x, ab, sab), REL, {"got": x, "ref": ab}, route=r)
+    if case.region == "whole":
+        for r, fn in (("Quaternion.product", lambda x, y: Q(x, versor=versor).product(y)), ("Quaternion.__mul__", lambda x, y: np.asarray(Q(x, versor=versor) * y)),
+                      ("Quaternion.__matmul__", lambda x, y: np.asarray(Q(x, versor=versor) @ y)), ("orientation.q_prod", lambda x, y: o.q_prod(x, y)),
+                      ("Quaternion.__mul__(Quaternion)", lambda x, y: np.asarray(Q(x, versor=versor) * Q(y, versor=versor)))):
+            forms.invariant(ctx, r, fn, [a, b])
     # associativity and norm through the library's own product
     out = call(lambda: (Q(np.asarray(A.product(bb.copy())), versor=False).product(cc.copy()),
                         A.product(np.asarray(Q(bb.copy(), versor=False).product(cc.copy())))))
